@@ -21,9 +21,11 @@ def ops():
 _REF = {}
 
 
-def run_session(twin, ch, wcap, cap=None):
+def run_session(twin, ch, wcap, cap=None, faults=None):
     cfg = scen.ops_cfg('two', 4096)
     cfg['keep_rx'] = True
+    if faults:
+        cfg['faults'] = faults
     if cap:
         cfg['wcap_global'] = cap
     s = Session(ch, cfg, twin=twin, wcap=wcap)
@@ -39,7 +41,7 @@ def run_session(twin, ch, wcap, cap=None):
             if r[0] != 'ok':
                 break
         raw = b''.join(frames_bytes(p) for w, p in s.env.events if w == 'H')
-        return {'res': res, 'marks': marks, 'parsed': raw, 'rx': bytes(s.env.rx_raw), 'partial': s.env.dev.parser.partial() if s.env.dev else 0, 'err': s.env.dev.parser.error if s.env.dev else None,
+        return {'res': res, 'marks': marks, 'parsed': raw, 'rx': bytes(s.env.rx_raw), 'rx_at_fault': s.env.rx_at_fault, 'partial': s.env.dev.parser.partial() if s.env.dev else 0, 'err': s.env.dev.parser.error if s.env.dev else None,
                 'writes': s.env.write_calls, 'fs': scen.fs_view(s.env), 'issues': list(s.env.issues)}
     finally:
         s.finish()
@@ -60,7 +62,7 @@ def reference(twin):
 def run_short(params, ch):
     twin = params['twin']
     ref = reference(twin)
-    o = run_session(twin, ch, wcap=not params.get('cap'), cap=params.get('cap'))
+    o = run_session(twin, ch, wcap=not params.get('cap'), cap=params.get('cap'), faults={int(k): v for k, v in params.get('faults', [])})
     viol = []
     names = [x[0] for x in ops()]
     for i, r in enumerate(o['res']):
@@ -79,6 +81,11 @@ def run_short(params, ch):
             viol.append({'msg': 'all calls returned normally but the byte stream the device received differs from the unlimited run (%s)' % (o['err'] or 'content',), 'sig': 'F1'})
         if o['fs'] != ref['fs']:
             viol.append({'msg': 'pushed file differs from the unlimited run'})
+    raised = any(r[0] != 'ok' for r in o['res'])
+    if raised and o['rx_at_fault'] is not None:
+        # once a transport error has been raised to the caller the session is broken (clean-up handlers may still write);
+        # the in-order / no-gap clause is judged on what the device had received up to that moment
+        o['rx'] = o['rx'][:o['rx_at_fault']]
     if not ref['rx'].startswith(o['rx']):
         n = next((i for i, (a, b) in enumerate(zip(o['rx'], ref['rx'])) if a != b), min(len(o['rx']), len(ref['rx'])))
         viol.append({'msg': 'the bytes the device received are not a prefix of the stream of the unlimited run: first difference at offset %d of %d (a gap or a repetition inside a message), '
@@ -99,6 +106,10 @@ def parts(tier):
     sc = [{'transport': t, 'buffers': 'small', 'push': pz} for t in twins for pz in ('small', 'big')]
     out.append(Part('loopback-small-buffers', sc, c18.run_tcp_session, what='real loopback TCP, SO_SNDBUF/SO_RCVBUF 4 KiB, slow reader, 100 KiB and 1 MiB push with a 5 s transport timeout',
                     bound='%d sessions (conformance runs: kernel scheduling is not enumerated)' % len(sc), exhaustive=False, chunk=1, min_outcomes=1, workers=4))
+    nref = 140
+    sc = [{'twin': t, 'faults': [[k, 'timeout']]} for t in twins for k in range(2, nref)]
+    out.append(Part('short-write-then-timeout', sc, run_short, {'wcap': 1}, what='one transport timeout at every call index combined with every placement of one short write: whatever reached the '
+                    'device must stay a prefix of the intended stream (no resend of a partly written message)', bound='%d fault positions x wcap deviations <= 1' % len(sc)))
     out.append(Part('global-capacity', [{'twin': t, 'cap': c} for t in twins for c in (1, 7, 23, 24, 25, 4095)], run_short,
                     what='every bulk_write accepts at most c bytes', bound='6 capacities x 2 twins'))
     return out
